@@ -33,7 +33,10 @@ pub type HResult<T> = Result<T, HostError>;
 
 extern "C" {
     fn kill(pid: i32, sig: i32) -> i32;
+    fn personality(persona: u64) -> i32;
 }
+
+const ADDR_NO_RANDOMIZE: u64 = 0x0040000;
 
 struct Watched {
     pid: u32,
@@ -89,6 +92,19 @@ impl Proc {
         cmd.arg("host").stdin(Stdio::piped()).stdout(Stdio::piped()).stderr(Stdio::inherit());
         for (k, v) in env {
             cmd.env(k, v);
+        }
+        // The kernel's address-space randomisation is nondeterminism the simulator does not own:
+        // switch it off for the simulated process and let the scheduler choose the layout instead
+        // (VERIF_SLIDE_* in `env`, heap pre-fragmentation ops).
+        unsafe {
+            use std::os::unix::process::CommandExt;
+            cmd.pre_exec(|| {
+                let cur = personality(0xffff_ffff);
+                if cur >= 0 {
+                    personality(cur as u64 | ADDR_NO_RANDOMIZE);
+                }
+                Ok(())
+            });
         }
         let mut child = cmd.spawn().map_err(|e| HostError::Died(e.to_string()))?;
         let stdin = child.stdin.take().unwrap();
